@@ -384,7 +384,7 @@ func runTranslate(c *vk.Ctx) {
 							}
 						}
 						// (e) addr2line and llvm-symbolizer flavours
-						for _, tool := range []string{"addr2line", "llvm"} {
+						for _, tool := range []string{"addr2line", "llvm", "addr2line+nm"} {
 							o2, ok2 := open(false, m)
 							r2 := objAddr(o2, ok2, addr)
 							if r2 != ro {
@@ -395,7 +395,20 @@ func runTranslate(c *vk.Ctx) {
 							if tool == "llvm" {
 								rw.Answer = llvmAnswer
 							}
-							binutils.VerifAttachTool(o2, tool, rw)
+							binutils.VerifAttachTool(o2, strings.TrimSuffix(tool, "+nm"), rw)
+							wantFunc := fmt.Sprintf("L%x", ro.v)
+							if tool == "addr2line+nm" {
+								// addr2line with the nm table that improves its names: the table holds run-time
+								// addresses, and a longer nm name replaces the one addr2line gave
+								var long []Sym
+								for _, sy := range syms {
+									long = append(long, Sym{Name: "name_known_to_nm_only_" + sy.Name, Type: sy.Type, Addr: sy.Addr, Size: sy.Size})
+								}
+								if binutils.VerifAttachToolNM(o2, nmText(long)) != nil || ro.v != la {
+									continue
+								}
+								wantFunc = "name_known_to_nm_only_" + wantSym
+							}
 							fr, err := o2.SourceLine(addr)
 							c.Eval()
 							saw, okSaw := toolSaw(tool, rw)
@@ -403,8 +416,8 @@ func runTranslate(c *vk.Ctx) {
 								reportf("tool/"+tool+"/address-sent-differs-from-objaddr", i, "fileAddr2Line.SourceLine", -1, "ObjAddr gave %#x, the tool was sent %q", ro.v, rw.Written)
 								continue
 							}
-							if err != nil || len(fr) != 1 || fr[0].Func != fmt.Sprintf("L%x", ro.v) || fr[0].Line != 7 {
-								reportf("tool/"+tool+"/answer-lost", i, "fileAddr2Line.SourceLine", -1, "the tool answered function L%x line 7 for %#x; got frames %v err %v", ro.v, ro.v, fr, err)
+							if err != nil || len(fr) != 1 || fr[0].Func != wantFunc || fr[0].Line != 7 {
+								reportf("tool/"+tool+"/answer-lost", i, "fileAddr2Line.SourceLine", -1, "the tool answered function L%x line 7 for %#x (want function %s); got frames %v err %v", ro.v, ro.v, wantFunc, fr, err)
 							}
 						}
 					}
